@@ -67,7 +67,7 @@ def repo_files():
     out += [os.path.join(REPO, "Cargo.toml"), os.path.join(REPO, "Cargo.lock")]
     return [p for p in out if os.path.exists(p)]
 
-GENERATED_V = ("TablesGen.v", "ConstsGen.v", "SrcGen.v", "SrcTieLevel.v", "SrcTieTables.v", "SrcTiePreds.v", "SrcTieDir.v", "SrcTieBaseDir.v", "SrcTieL1.v")
+GENERATED_V = ("TablesGen.v", "ConstsGen.v", "SrcGen.v", "SrcTieLevel.v", "SrcTieTables.v", "SrcTiePreds.v", "SrcTieDir.v", "SrcTieBaseDir.v", "SrcTieL1.v", "SrcTiePipe.v")
 
 def verif_files():
     out = []
@@ -91,10 +91,10 @@ def write_if_changed(path, content):
     if old != content:
         open(path, "w").write(content)
 
-TIE_TEMPLATES = ["SrcTieLevel", "SrcTieTables", "SrcTiePreds", "SrcTieDir", "SrcTieBaseDir", "SrcTieL1"]
+TIE_TEMPLATES = ["SrcTieLevel", "SrcTieTables", "SrcTiePreds", "SrcTieDir", "SrcTieBaseDir", "SrcTieL1", "SrcTiePipe"]
 # which properties lean on which translated-source tie file
 TIE_PROPS = {"C19": ["Proofs/SrcTieLevel.v"], "C14": ["Proofs/SrcTieTables.v"], "C15": ["Proofs/SrcTieTables.v"],
-             "C01": ["Proofs/SrcTiePreds.v"], "C11": ["Proofs/SrcTieLevel.v"],
+             "C01": ["Proofs/SrcTiePreds.v", "Proofs/SrcTiePipe.v"], "C11": ["Proofs/SrcTieLevel.v"],
              "C03": ["Proofs/SrcTieL1.v"], "C16": ["Proofs/SrcTieBaseDir.v"], "C17": ["Proofs/SrcTieDir.v"]}
 # a tie file that stops compiling is a broken obligation, except where the correspondence is EXHAUSTIVE over
 # the function's whole (finite) domain and is therefore a complete tie on its own
@@ -429,7 +429,8 @@ def proof_status(prop, coq):
             problems.append("translated-source tie no longer checks: " + tf)
         stem = {"Proofs/SrcTieLevel.v": "level::", "Proofs/SrcTieTables.v": "char_data::", "Proofs/SrcTiePreds.v": ("prepare::", "implicit::", "char_data::is_rtl"),
                 "Proofs/SrcTieDir.v": "lib::para_direction", "Proofs/SrcTieBaseDir.v": "lib::get_base_direction_impl",
-                "Proofs/SrcTieL1.v": "lib::reorder_levels"}[tf]
+                "Proofs/SrcTieL1.v": "lib::reorder_levels",
+                "Proofs/SrcTiePipe.v": ("lib::assign_levels_to_removed_chars", "implicit::resolve_levels")}[tf]
         for r, why in skipped.items():
             if r.startswith(stem):
                 tie["notes"].append("not translated: %s (%s); the correspondence run is the only tie for it" % (r, why))
